@@ -178,7 +178,7 @@ class HommaEstimator(SobolEstimator):
         sampling_a, _, replication_c = self.split_abc(outputs, nb_design, nb_dim)
 
         mu_a = np.mean(sampling_a)
-        var = np.sum([(v - mu_a)**2 for v in sampling_a]) / (len(sampling_a) - 1)
+        var = np.sum([(v - mu_a)**2 for v in sampling_a]) / len(sampling_a)
 
         stis = [
             (var - (1. / nb_design) * np.sum(sampling_a * replication_c[i]) + mu_a**2.0) / var
@@ -307,7 +307,7 @@ class SaltelliEstimator(SobolEstimator):
         sampling_a, _, replication_c = self.split_abc(outputs, nb_design, nb_dim)
 
         mu_a = np.mean(sampling_a)
-        var = np.sum([(v - mu_a)**2 for v in sampling_a]) / (len(sampling_a) - 1)
+        var = np.sum([(v - mu_a)**2 for v in sampling_a]) / len(sampling_a)
 
         stis = [
             1. - ((1. / nb_design) * np.sum(sampling_a * replication_c[i]) - mu_a**2.) / var
